@@ -16,6 +16,12 @@ def handle (fn : String) (args : List Json) : String :=
   | "get_birth_year" => match args with
     | [t, a0] => (do let today__ ← Wire.decDate t; let x0 ← Wire.decStr a0; pure (Wire.respondWith (Wire.encOpt Wire.encInt) (Gen.be_ssn.get_birth_year today__ x0)) : Option String).getD "badargs"
     | _ => "badargs"
+  | "get_gender" => match args with
+    | [t, a0] => (do let today__ ← Wire.decDate t; let x0 ← Wire.decStr a0; pure (Wire.respondWith (Wire.encOpt Wire.encStr) (Gen.be_ssn.get_gender today__ x0)) : Option String).getD "badargs"
+    | _ => "badargs"
+  | "guess_type" => match args with
+    | [t, a0] => (do let today__ ← Wire.decDate t; let x0 ← Wire.decStr a0; pure (Wire.respondWith (Wire.encOpt Wire.encStr) (Gen.be_ssn.guess_type today__ x0)) : Option String).getD "badargs"
+    | _ => "badargs"
   | "is_valid" => match args with
     | [t, a0] => (do let today__ ← Wire.decDate t; let x0 ← Wire.decStr a0; pure (Wire.respondWith Wire.encBool (Gen.be_ssn.is_valid today__ x0)) : Option String).getD "badargs"
     | _ => "badargs"
